@@ -32,11 +32,19 @@ ASSUMPTIONS = [
     "a phase / post_phase_shift equal to the float 2*pi (x % 2pi rounded up for |x| < 1e-16, x < 0) is gray, not a violation",
     "ArbitraryPhase is observed with an amplitude that is not the constant 0 (zero-amplitude constant-detuning pulses are "
     "sampled as detuned delays whose phase is ignored by design)",
+    "ArbitraryPhase: 1e-9 is demanded unless 4*duration*eps*(max|phi| + max|dphi|) is larger (phase waveforms reaching "
+    "1e6..1e9 rad, e.g. short Kaiser windows); differences between the two are gray",
     "numpy arrays only (torch is not installed)",
 ]
-TIERS = {"quick": dict(cases=9000, shards=8, case_timeout=120, shard_timeout=900),
-         "thorough": dict(cases=90000, shards=16, case_timeout=120, shard_timeout=3000)}
-FLOORS = {"quick": {}, "thorough": {}}
+TIERS = {"quick": dict(cases=20000, shards=8, case_timeout=120, shard_timeout=900),
+         "thorough": dict(cases=200000, shards=16, case_timeout=120, shard_timeout=3000)}
+_Q = {"length_finite_checked": 7800, "closed_form_checked": 4800, "area_checked": 3500, "accessors_checked": 3900,
+      "scaling_checked": 18000, "div_zero_checked": 3900, "equality_checked": 31000, "index_checked": 100000,
+      "slice_checked": 47000, "change_duration_checked": 2800, "max_val_checked": 790, "max_val_minimal_checked": 530,
+      "pulse_invariants_checked": 590, "pulse_invalid_rejected": 100, "arbitrary_phase_checked": 700,
+      "built:ConstantWaveform": 500, "built:RampWaveform": 750, "built:BlackmanWaveform": 730, "built:KaiserWaveform": 600,
+      "built:CustomWaveform": 500, "built:InterpolatedWaveform": 570, "built:CompositeWaveform": 400}
+FLOORS = {"quick": _Q, "thorough": {k: 10 * v for k, v in _Q.items()}}
 
 TWO_PI = 2 * math.pi
 VALS = [0.0, 1e-12, -1e-12, 1.0, -1.0, 2.5, -7.3, 1e6, -1e6, 12.566371, 0.3]
@@ -111,10 +119,31 @@ def expand(s: dict) -> dict:
         x = r.uniform(-1, 1, s["n"])
         if s.get("smooth"):
             x = np.cumsum(x) / math.sqrt(s["n"])
+        if s.get("sign"):
+            x = s["sign"] * np.abs(x)
         return {"k": "custom", "samples": [float(y) for y in x * s["scale"]]}
     if s["k"] == "composite":
         return {"k": "composite", "parts": [expand(p) for p in s["parts"]]}
     return s
+
+
+def signed(s: dict, sign: int) -> dict:
+    """The same waveform with every defining value made non-negative (sign=+1) or non-positive (sign=-1)."""
+    f = lambda v: sign * abs(v)  # noqa: E731
+    k = s["k"]
+    if k == "const":
+        return dict(s, v=f(s["v"]))
+    if k == "ramp":
+        return dict(s, a=f(s["a"]), b=f(s["b"]))
+    if k in ("blackman", "kaiser"):
+        return dict(s, area=f(s["area"]))
+    if k == "custom":
+        return dict(s, samples=[f(v) for v in s["samples"]])
+    if k == "customseed":
+        return dict(s, sign=sign)
+    if k == "interp":
+        return dict(s, values=[f(v) for v in s["values"]])
+    return dict(s, parts=[signed(p, sign) for p in s["parts"]])
 
 
 def spec_duration(s: dict) -> int:
@@ -535,7 +564,7 @@ def case_pulse(ctx, rng):
     d = duration(rng)
     invalid = gen.wchoice(rng, {"none": 85, "negative-amp": 8, "duration-mismatch": 7})
     amp_kinds = {"const": 3, "ramp": 2, "blackman": 2, "kaiser": 1, "custom": 1.5, "interp": 1.5, "composite": 1}
-    amp = gen_spec(rng, d, amp_kinds, small=True)
+    amp = signed(gen_spec(rng, d, amp_kinds, small=True), -1 if invalid == "negative-amp" else 1)
     det = gen_spec(rng, d + (rng.randint(1, 3) if invalid == "duration-mismatch" else 0), None, small=True)
     kind = gen.pick(rng, [None, None, "constamp", "constdet", "constpulse"]) if invalid == "none" else None
     p = {"amp": amp, "det": det, "phase": gen.pick(rng, PHASES), "pps": gen.pick(rng, PHASES)}
@@ -638,11 +667,17 @@ def case_arbphase(ctx, rng):
         ctx.violation("arbitrary-phase", f"phase_modulation has {len(pm)} samples for a {d} ns pulse", "arbitrary-phase:length")
         return
     diff = np.abs(W.wrap_pi(pm - xphi))
-    if float(np.max(diff)) > 1e-9:
+    worst = float(np.max(diff))
+    # phases of 1e9 rad (a 3-ns Kaiser window of area 20) cannot be reproduced to 1e-9: rounding of the running sum
+    S = float(np.max(np.abs(xphi))) + float(np.max(np.abs(np.diff(xphi)), initial=0.0))
+    slack = 4 * d * np.finfo(float).eps * S
+    if worst > max(1e-9, slack):
         i = int(np.argmax(diff))
         ctx.violation("arbitrary-phase", f"ArbitraryPhase({cls}, duration {d}): phase_modulation[{i}] = {pm[i]!r}, "
                       f"phase waveform[{i}] = {xphi[i]!r} (differ by {diff[i]:.3e} mod 2pi)",
                       f"arbitrary-phase:{cls}:{W.dur_class(d)}")
+    elif worst > 1e-9:
+        ctx.gray("arbitrary-phase-below-float-resolution")
 
 
 CASES = {"wf": case_wf, "maxval": case_maxval, "pulse": case_pulse, "arbphase": case_arbphase}
